@@ -2,7 +2,9 @@
 From Coq Require Import List Bool String.
 From TS Require Import Model.Str Model.Outcome Model.Unicode Model.Types Model.Parse Model.Reconcile Model.Lang.Decl
                        Model.Lang.TypeScript Model.Lang.Kotlin Model.Lang.Scala Model.Lang.Go Spec.C09Spec.
+From TS Require Import Model.Lang.Swift Model.Lang.Python.
 From TS Require Proofs.C09Common Proofs.C09Recon Proofs.C09Refs Proofs.C09_KotlinFile Proofs.C09Witness Proofs.C09Final.
+From TS Require Proofs.C09_TypeScript.
 Import ListNotations.
 
 (* the program the back ends receive in single-file mode is Proofs.C09Recon.c09_reconciled of the parsed one *)
@@ -64,6 +66,27 @@ Theorem C09_no_rename_Kotlin :
       good_C09 Kotlin (kt_prefix cfg) pd (c09_observe Kotlin fd) = true.
 Proof. exact Proofs.C09Final.c09_no_rename_kotlin. Qed.
 Print Assumptions C09_no_rename_Kotlin.
+
+(* TypeScript (no prefix), every program, every type-mapping configuration: outside the recorded classes
+   every name the generated file spells in a type position (member types - those of inlined struct
+   variants included -, variant payloads, alias targets, const types, generic arguments) is a generic
+   parameter of the item it stands in or exactly the name a generated definition is declared under *)
+Theorem C09_TypeScript :
+  forall (uc : unicode) (cfg : ts_config) (acrs : list str) (pd : parsed),
+    dom_C09 TypeScript [] pd = true -> known_C09 TypeScript [] acrs pd = None ->
+    forall fd : file_decls, ts_file_decls uc cfg (Proofs.C09Recon.c09_reconciled pd) = Ok fd ->
+      good_C09 TypeScript [] pd (c09_observe TypeScript fd) = true.
+Proof. exact Proofs.C09_TypeScript.c09_typescript_all. Qed.
+Print Assumptions C09_TypeScript.
+
+Theorem C09_no_rename_TypeScript :
+  forall (uc : unicode) (cfg : ts_config) (pd : parsed),
+    dom_C09 TypeScript [] pd = true ->
+    (forall e, In e (c09_entities pd) -> c09_renamed_away (c9e_id e) = false) ->
+    forall fd : file_decls, ts_file_decls uc cfg (Proofs.C09Recon.c09_reconciled pd) = Ok fd ->
+      good_C09 TypeScript [] pd (c09_observe TypeScript fd) = true.
+Proof. exact Proofs.C09Final.c09_no_rename_typescript. Qed.
+Print Assumptions C09_no_rename_TypeScript.
 
 (* nothing renamed => no recorded class applies, all languages (with an empty Go acronym list) *)
 Theorem C09_no_rename_no_class :
